@@ -50,3 +50,14 @@ package keeper
 //@   before[C20.cat.owner]   GetTaskID requires contains(res_GetAVSInfoByTaskAddress_0.AvsOwnerAddress, params.CallerAddress) && res_GetAVSInfoByTaskAddress_0.AvsAddress != ""
 //@   before[C20.cat.stored]  SetTaskInfo requires arg_task.TaskId == res_GetTaskID_0 && arg_task.TaskContractAddress == params.TaskContractAddress &&
 //@        arg_task.StartingEpoch == wrapu(res_GetEpochInfo_0.CurrentEpoch + 1, 18446744073709551616)
+
+// ---------------------------------------------------------------------------------------------
+// C05: the AVSs whose voting power is refreshed at the end of epoch n of an identifier are exactly those with that
+// identifier whose starting epoch is at most n+1 (an AVS starting in the next epoch is already tracked)
+//@ func (*Keeper).GetEpochEndAVSs$1
+//@   requires avsInfo.StartingEpoch < 9223372036854775807
+//@   ensures[C05.geea.goon] !stop
+//@   ensures[C05.geea.incl] epochIdentifier == avsInfo.EpochIdentifier && endingEpochNumber + 1 >= avsInfo.StartingEpoch ==>
+//@        len(final_avsList) == len(avsList) + 1 && final_avsList[len(avsList)] == avsInfo.AvsAddress &&
+//@        forall(i, 0, len(avsList), final_avsList[i] == avsList[i])
+//@   ensures[C05.geea.excl] !(epochIdentifier == avsInfo.EpochIdentifier && endingEpochNumber + 1 >= avsInfo.StartingEpoch) ==> final_avsList == avsList
